@@ -531,6 +531,12 @@ func (w *World) finishSignal() chan struct{} {
 	return w.finSig
 }
 
+// Client is the fake WARC client (its WaitGroup is what the WARC-queue watcher reads).
+func (w *World) Client() *warc.CustomHTTPClient { return w.client }
+
+// JobDir is the job directory of this world.
+func (w *World) JobDir() string { return w.seenDir }
+
 // WaitIdle parks the calling thread until every other thread is blocked (the
 // pipeline has started and waits for input).
 func (w *World) WaitIdle() {
